@@ -590,6 +590,66 @@ func mxjOp(st mxjStep) (name, got, want string) {
 		sort.Strings(g)
 		sort.Strings(w)
 		return "LeafNodes(" + st.Arg + ")", strings.Join(g, "; "), strings.Join(w, "; ")
+	case "upd":
+		var exp struct {
+			Ok   bool       `json:"ok"`
+			C    int        `json:"c"`
+			Post *tagged.TV `json:"post"`
+		}
+		if err := json.Unmarshal(st.R, &exp); err != nil {
+			panic(err)
+		}
+		m := mxjQueryMap()
+		n, err := m.UpdateValuesForPath(st.Arg, "a")
+		name = fmt.Sprintf("UpdateValuesForPath(%q, \"a\")", st.Arg)
+		if !exp.Ok {
+			return name + " error class", cls(err) + " " + tagged.CanonGo(m), "err " + exp.Post.Norm()
+		}
+		return name, fmt.Sprintf("%d %v %s", n, err, tagged.CanonGo(m)), fmt.Sprintf("%d <nil> %s", exp.C, exp.Post.Norm())
+	case "struct":
+		var exp []string
+		if err := json.Unmarshal(st.R, &exp); err != nil {
+			panic(err)
+		}
+		var got []string
+		var err error
+		if st.Arg == "elems" {
+			name = `Elements("doc")`
+			got, err = mxjLeafMap().Elements("doc")
+		} else {
+			name = `Attributes("doc")`
+			got, err = mxjLeafMap().Attributes("doc")
+		}
+		return name, fmt.Sprint(strings.Join(got, ","), err), fmt.Sprint(strings.Join(exp, ","), "<nil>")
+	case "seqrt":
+		var x string
+		if err := json.Unmarshal(st.R, &x); err != nil {
+			panic(err)
+		}
+		ms, err := mxj.NewMapXmlSeq([]byte(mxjProbeSeqDoc))
+		if err != nil {
+			return "NewMapXmlSeq(probe)", "error " + err.Error(), x
+		}
+		cv := mxj.VerifOptions()["checkValid"].(bool)
+		mxj.XmlCheckIsValid(false)
+		b, err := ms.Xml()
+		mxj.XmlCheckIsValid(cv)
+		return "MapSeq.Xml() of NewMapXmlSeq(probe)", string(b) + fmt.Sprint(err), x + "<nil>"
+	case "json":
+		var tv tagged.TV
+		if err := json.Unmarshal(st.R, &tv); err != nil {
+			panic(err)
+		}
+		m, err := mxj.NewMapJson([]byte(`{"n":1.50,"s":"x"}`))
+		nv := "?"
+		switch x := m["n"].(type) {
+		case json.Number:
+			nv = "num:" + string(x)
+		case float64:
+			nv = "f:" + tagged.FloatToken(x)
+		}
+		want := tv.KV["n"].T + ":" + tv.KV["n"].V
+		return `NewMapJson({"n":1.50,"s":"x"})`, fmt.Sprint(nv, " ", m["s"], err), fmt.Sprint(want, " ", tv.KV["s"].V, "<nil>")
 	case "cast":
 		var exp []string
 		if err := json.Unmarshal(st.R, &exp); err != nil {
